@@ -653,7 +653,7 @@ func (w *World) DisputeStory(o HistOpts) {
 	w.block(o, 3*sec)
 	// between report and dispute a backer takes most of its stake out (the slash must then reach into the
 	// unbonding entry)
-	if w.pick(3) == 0 {
+	if w.pick(2) == 0 {
 		backers := []*Actor{r}
 		for _, a := range w.Actors {
 			if s, err := w.App.ReporterKeeper.Selectors.Get(w.Ctx, a.Addr.Bytes()); err == nil && string(s.Reporter) == string(r.Addr.Bytes()) && a.Name != r.Name {
@@ -674,7 +674,13 @@ func (w *World) DisputeStory(o HistOpts) {
 				if wv.ValAddr.String() == d.ValidatorAddress && tok > 1000 {
 					wv := wv
 					take := tok - tok/int64(50+w.pick(400))
-					outs = append(outs, func() { w.Undelegate(b, wv, take) })
+					if w.pick(2) == 0 {
+						outs = append(outs, func() { w.Undelegate(b, wv, take) })
+					} else {
+						// ... or moves most of it to another validator: the slash must follow the redelegation for what is missing
+						to := w.Vals[(w.pick(len(w.Vals)-1)+1+indexOfVal(w.Vals, wv))%len(w.Vals)]
+						outs = append(outs, func() { w.Redelegate(b, wv, to, take) })
+					}
 				}
 			}
 		}
@@ -797,6 +803,10 @@ func (w *World) DisputeStory(o HistOpts) {
 		}
 		w.block(o, 48*time.Hour+time.Duration(w.pick(3))*sec) // vote period ends: tally in BeginBlock
 		if round < rounds {
+			// between the rounds tips and stakes move on: weights stay those of the dispute's (first round's) block
+			w.block(o, time.Minute, func() { w.Tip(tipper, w.currentCycleQuery(), int64(1_000_000+w.pick(50_000_000))) },
+				func() { w.Tip(w.user(), w.currentCycleQuery(), int64(1_000_000+w.pick(5_000_000))) },
+				func() { w.Delegate(r, w.val(), int64(1_000_000*(1+w.pick(40)))) })
 			p := payers[w.pick(len(payers))]
 			w.block(o, time.Hour, func() { w.ProposeDispute(p, rep, cat, full.Int64()*2, w.pick(5) == 0, "story-round") })
 			if w.lastDisputeId() == id {
@@ -1037,6 +1047,15 @@ func (w *World) BridgeStory(o HistOpts) {
 		}
 		w.block(o, 2*sec, func() { w.WithdrawTokens(a, rc, w.amount()) }, func() { w.Submit(ops[0], fmt.Sprintf("wd%d", 1+w.pick(5)), val) })
 	}
+}
+
+func indexOfVal(vs []*Val, v *Val) int {
+	for i, x := range vs {
+		if x == v {
+			return i
+		}
+	}
+	return 0
 }
 
 // RemovalStory: the only way out of a selection other than switching.  Governance lowers the selector cap below a
